@@ -269,7 +269,7 @@ ComesToRest == <>[](hs.state = "IDLE" /\ hd.state = "IDLE")
 \* ... except in the waits the statement leaves unbounded: sender awaiting Finished after its EOF was acknowledged,
 \* receiver awaiting file data / EOF
 UnboundedWait == \/ (hs.state = "BUSY" /\ hs.step = "WAITING_FOR_FINISHED" /\ hs.hdr.mode = "ACK")
-                 \/ (hd.state = "BUSY" /\ hd.step \in {"RECEIVING_FILE_DATA"})
+                 \/ (hd.state = "BUSY" /\ hd.step \in {"RECEIVING_FILE_DATA", "WAITING_FOR_METADATA"} /\ ~hd.p.deferred /\ hd.p.eofSize < 0)
 RestOrWait == <>[](Done \/ UnboundedWait \/ ((hs.state = "IDLE" \/ UnboundedWait) /\ (hd.state = "IDLE" \/ UnboundedWait)))
 \* schedule emission: print each complete behaviour once (Record: the history is part of the state)
 Terminal == Done \/ Stuck \/ (Record /\ Len(hist) >= MaxHist)
